@@ -463,7 +463,8 @@ class GenericWriter(ABC):
     def __init__(self, schema, metadata=None, validator=None, options={}):
         self._named_schemas = {}
         self.validate_fn = _validate if validator else None
-        self.metadata = metadata or {}
+        # the header entries are added to a copy, not to the caller's dictionary
+        self.metadata = dict(metadata) if metadata else {}
         self.options = options
 
         # A schema of None is allowed when appending and when doing so the
